@@ -10,7 +10,7 @@ Inductive step :=
 with pred :=
 | PExists (e:list step) | PEq (l r:list step) | PAnd (a b:pred) | PNot (a:pred) | PIsUnknown (a:pred).
 
-Inductive err := EVerbose (n:nat) | EHard (n:nat).
+Inductive err := EVerbose (n:nat) | EHard (n:nat) | ECancel.
 Inductive status := OK | NotFound | Failed.
 Inductive outcome3 := PT | PF | PU.
 
@@ -21,10 +21,12 @@ Definition children (v:json) : option (list json) :=
   match v with JArr l => Some l | JObj l => Some (map snd l) | _ => None end.
 
 (* ---------- executor state ---------- *)
-Record st := { root: json; cur: json; ign: bool; verbose: bool; lax: bool }.
-Definition set_cur s c := {| root:=root s; cur:=c; ign:=ign s; verbose:=verbose s; lax:=lax s |}.
-Definition set_ign s b := {| root:=root s; cur:=cur s; ign:=b; verbose:=verbose s; lax:=lax s |}.
-Definition set_verbose s b := {| root:=root s; cur:=cur s; ign:=ign s; verbose:=b; lax:=lax s |}.
+Record st := { root: json; cur: json; ign: bool; verbose: bool; lax: bool; polls: nat; cancel_at: option nat }.
+Definition set_cur s c := {| root:=root s; cur:=c; ign:=ign s; verbose:=verbose s; lax:=lax s; polls:=polls s; cancel_at:=cancel_at s |}.
+Definition set_ign s b := {| root:=root s; cur:=cur s; ign:=b; verbose:=verbose s; lax:=lax s; polls:=polls s; cancel_at:=cancel_at s |}.
+Definition set_verbose s b := {| root:=root s; cur:=cur s; ign:=ign s; verbose:=b; lax:=lax s; polls:=polls s; cancel_at:=cancel_at s |}.
+Definition tick s := {| root:=root s; cur:=cur s; ign:=ign s; verbose:=verbose s; lax:=lax s; polls:=S (polls s); cancel_at:=cancel_at s |}.
+Definition done_now (s:st) : bool := match cancel_at s with Some k => (k <=? polls s)%nat | None => false end.
 
 Inductive req :=
 | RItem (n:list step) (v:json) (found:option (list json)) (unwrap:bool)
@@ -104,7 +106,9 @@ Definition execFilter (p:pred) (next:list step) (v:json) (found:option (list jso
     end
   end.
 
-Definition execItem (n:list step) (v:json) (found:option (list json)) (unwrap:bool) (s:st) : outcome (resp*st) :=
+Definition execItem (n:list step) (v:json) (found:option (list json)) (unwrap:bool) (s0:st) : outcome (resp*st) :=
+  if done_now s0 then Ret (mk Failed (Some ECancel) found, tick s0) else
+  let s := tick s0 in
   match n with
   | [] => Ret (mk OK None (option_map (fun l => l ++ [v]) found), s)
   | SRoot :: next => executeNextItem next (root s) found s
@@ -249,12 +253,12 @@ Fixpoint run (fuel:nat) : req -> st -> outcome (resp*st) :=
   match fuel with O => fun _ _ => OutOfFuel | S n => body (run n) end.
 
 (* ---------- Frame lemma: context is restored ---------- *)
-Definition ctx_eq (a b:st) := root a = root b /\ cur a = cur b /\ ign a = ign b /\ verbose a = verbose b /\ lax a = lax b.
+Definition ctx_eq (a b:st) := root a = root b /\ cur a = cur b /\ ign a = ign b /\ verbose a = verbose b /\ lax a = lax b /\ cancel_at a = cancel_at b.
 Definition frames (f: req -> st -> outcome (resp*st)) :=
   forall q s r s', f q s = Ret (r, s') -> ctx_eq s s'.
 
 Lemma ctx_eq_refl s : ctx_eq s s. Proof. repeat split. Qed.
-Lemma st_eta s : s = {| root:=root s; cur:=cur s; ign:=ign s; verbose:=verbose s; lax:=lax s |}.
+Lemma st_eta s : s = {| root:=root s; cur:=cur s; ign:=ign s; verbose:=verbose s; lax:=lax s; polls:=polls s; cancel_at:=cancel_at s |}.
 Proof. destruct s; reflexivity. Qed.
 
 Ltac inv H := inversion H; subst; clear H.
@@ -313,22 +317,24 @@ Proof.
   eapply Hself; eauto.
 Qed.
 
+Definition ign_free (a b:st) := root a = root b /\ cur a = cur b /\ verbose a = verbose b /\ lax a = lax b /\ cancel_at a = cancel_at b.
+
 Lemma frame_any f l next v found s r s' : execAny self f l next v found s = Ret (r, s') -> ctx_eq s s'.
 Proof.
   unfold execAny; intro H.
-  assert (C: forall s0 fnd r s', ign s0 = true -> root s0 = root s -> cur s0 = cur s -> verbose s0 = verbose s -> lax s0 = lax s ->
+  assert (C: forall s0 fnd r s', ign s0 = true -> ign_free s s0 ->
      (do (r2, s2) <- match children v with
         | Some vs => do (r, s2) <- self (RAny next vs fnd one 0 l true (lax s0)) s0; Ret (r, s2)
         | None => Ret (mk NotFound None fnd, s0) end; Ret (r2, set_ign s2 (ign s))) = Ret (r, s') -> ctx_eq s s').
-  { clear H. intros s0 fnd r1 s1 I1 I2 I3 I4 I5 H. dob.
+  { clear H. intros s0 fnd r1 s1 I1 I2 H. dob.
     destruct (children v).
-    - dob. ret. ret. selfstep K. revert K; unfold ctx_eq; cbn; intuition congruence.
-    - ret. ret. unfold ctx_eq; cbn; intuition congruence. }
+    - dob. ret. ret. selfstep K. revert K I2; unfold ctx_eq, ign_free; cbn; intuition congruence.
+    - ret. ret. revert I2; unfold ctx_eq, ign_free; cbn; intuition congruence. }
   destruct f.
   - dob. apply frame_next in E.
     assert (R: ctx_eq s (set_ign s0 (ign s))) by (eapply restore_ign; eauto).
     destruct (rstat r0); [destruct found| |]; try (ret; exact R);
-      (eapply C; [| | | | |exact H]; cbn; revert E; unfold ctx_eq; cbn; intuition congruence).
+      (eapply C; [| |exact H]; cbn; revert E; unfold ctx_eq, ign_free; cbn; intuition congruence).
   - destruct (children v); [dob; ret; eapply Hself; eauto|ret; apply ctx_eq_refl].
 Qed.
 
@@ -345,9 +351,13 @@ Proof.
   destruct u; [eapply Hself; eauto|eapply G; eauto].
 Qed.
 
+Lemma ctx_tick s : ctx_eq s (tick s). Proof. repeat split. Qed.
+
 Lemma frame_item n v found u s r s' : execItem self n v found u s = Ret (r, s') -> ctx_eq s s'.
 Proof.
-  unfold execItem; intro H. destruct n as [|[]]; try (eapply frame_next; eauto; fail).
+  unfold execItem; intro H. destruct (done_now s); [ret; apply ctx_tick|].
+  eapply ctx_eq_trans; [apply ctx_tick|].
+  destruct n as [|[]]; try (eapply frame_next; eauto; fail).
   - ret; apply ctx_eq_refl.
   - eapply frame_key; eauto.
   - eapply frame_anyarr; eauto.
@@ -356,7 +366,6 @@ Proof.
   - destruct n; [destruct found; [eapply frame_next; eauto|ret; apply ctx_eq_refl]|eapply frame_next; eauto].
 Qed.
 
-Definition ign_free (a b:st) := root a = root b /\ cur a = cur b /\ verbose a = verbose b /\ lax a = lax b.
 
 Lemma frame_anyloop n vs found level first last ignp un res s saved r s' :
   anyLoop self n vs found level first last ignp un res s saved = Ret (r, s') -> ign_free s s'.
